@@ -1,19 +1,38 @@
 #!/bin/bash
+# usage: gate.sh [ids...]   (no ids = every .v file)
 # fails if the Coq development declares axioms, leaves admits or switches off kernel checks
 cd /verif/coq
-if grep -rnE '\b(Admitted|admit|Axiom|Axioms|Parameter|Parameters|Conjecture|Abort All)\b|Unset Guard|bypass_check|type-in-type|impredicative-set|Admit Obligations' --include='*.v' . ; then
-  echo "GATE: forbidden declaration found" >&2; exit 1
+if [ $# -eq 0 ]; then files=$(find . -name '*.v' | sort); else
+  files=$(ls Base/*.v); for i in "$@"; do files="$files $(ls $i/*.v 2>/dev/null) Properties/$i.v"; done
+  # Base files prefixed with an unclaimed property id are only checked when that property is claimed: keep all Base files that compiled
 fi
-# Variable/Hypothesis outside a Section
-/venv/bin/python - <<'PY'
-import re,sys,glob
-bad=[]
-for f in glob.glob('/verif/coq/**/*.v',recursive=True):
-    depth=0
-    for n,l in enumerate(open(f),1):
-        if re.match(r'\s*Section\s',l): depth+=1
-        elif re.match(r'\s*End\s',l) and depth>0: depth-=1
-        elif re.match(r'\s*(Variables?|Hypothes[ie]s|Context)\b',l) and depth==0: bad.append((f,n,l.strip()))
-if bad:
-    print("GATE: Variable/Hypothesis outside Section:",bad,file=sys.stderr); sys.exit(1)
+bad=0
+for f in $files; do
+  [ -f "$f" ] || continue
+  # strip comments before matching
+  if /venv/bin/python - "$f" <<'PY'
+import re,sys
+s=open(sys.argv[1]).read()
+# remove (nested) comments
+out=[];depth=0;i=0
+while i<len(s):
+    if s.startswith('(*',i): depth+=1;i+=2;continue
+    if s.startswith('*)',i) and depth>0: depth-=1;i+=2;continue
+    if depth==0: out.append(s[i])
+    elif s[i]=='\n': out.append('\n')
+    i+=1
+t=''.join(out)
+pat=re.compile(r'\b(Admitted|admit|Axiom|Axioms|Parameter|Parameters|Conjecture|Conjectures)\b|Unset\s+Guard|bypass_check|type-in-type|impredicative-set|Admit\s+Obligations|Unset\s+Universe\s+Checking|Unset\s+Positivity')
+bad=[(n,l) for n,l in enumerate(t.split('\n'),1) if pat.search(l)]
+depth=0
+for n,l in enumerate(t.split('\n'),1):
+    if re.match(r'\s*Section\s',l): depth+=1
+    elif re.match(r'\s*End\s',l) and depth>0: depth-=1
+    elif re.match(r'\s*(Variables?|Hypothes[ie]s|Context)\b',l) and depth==0: bad.append((n,l))
+for n,l in bad: print("GATE %s:%d: %s"%(sys.argv[1],n,l.strip()))
+sys.exit(1 if bad else 0)
 PY
+  then :; else bad=1; fi
+done
+if [ $bad -ne 0 ]; then echo "GATE: forbidden declaration found" >&2; exit 1; fi
+echo "gate ok"
